@@ -26,7 +26,7 @@ PROPS = {
         "assumptions": [
             "keys are non-empty (Badger and Bolt reject empty keys; grip never writes one)",
             "Next() is only issued on a valid cursor; Key()/Value() are only compared while Valid()",
-            "atomicity/rollback of Update on drivers without transactions (Pebble, LevelDB) is outside the ordered-map statement",
+            "a callback that fails is modelled as 'nothing happened' (C10_failed_update_leaves_no_trace); Pebble's Update, which is documented as not transactional, is the known finding C10-K1 and is recognised by a second, 'leaky' run of the model (kv_run_leaky); atomicity under a process kill is C04's subject",
         ],
     },
     "C03": {
@@ -159,6 +159,7 @@ PROPS = {
     "C11": {
         "trusted_base": [
             "Model/Jobs.v: resume = run_from of the extension from the stored type on the stored travelers; the serialisation of travelers to JSON and back is NOT modelled (identity in the model): it is exercised by every view/resume of the correspondence",
+            "Model/Jobs.v deal_from / merge mirror the reader and merger loops of jobstorage/serializer.go MarshalStream and UnmarshalStream (hand-written; the worker goroutines between them are modelled as FIFO lists; compared with the Go pair on ~80 (workers, length) pairs per run)",
             "job_match mirrors jobstorage.JobMatch over abstract checksums; C11_search assumes checksum equality is exact (hashstructure collisions and its treatment of protobuf oneofs are exercised, not modelled)",
             "the traversal semantics is Model/Traversal.v (tied to the engine by C01); Eval_C11 reuses C01's row comparison (exact multiset / window / unordered modes)",
         ],
